@@ -35,8 +35,14 @@ IsOp(name) == Ref!Member(op, Ref!S_op).s = name
 PathOf == Ref!Member(op, Ref!S_path).s
 AddThenTest == IsOp(Ref!S_add) => LET r == Ref!OpStep(doc, op) IN
                   (r.ok /\ PathOf[Len(PathOf)] # 45) => Ref!OpStep(r.v, MkOp(Ref!S_test, PathOf, <<>>, TRUE)).ok
+\* remove succeeds exactly where the location exists; afterwards a member is gone (an array element is replaced by its
+\* successor: the array is one shorter) and every other top-level member is untouched
+ParentPath == LET toks == Ref!P!Tokens(PathOf) IN SubSeq(PathOf, 1, Len(PathOf) - Len(toks[Len(toks)]) - 1)
 RemoveThenGone == IsOp(Ref!S_remove) => LET r == Ref!OpStep(doc, op) IN
-                  r.ok => Ref!EqualV(r.v, r.v) /\ (Ref!Lookup(doc, PathOf).ok)
+                  /\ r.ok <=> (Len(PathOf) > 0 /\ Ref!Lookup(doc, PathOf).ok)
+                  /\ r.ok => LET par == Ref!Lookup(doc, ParentPath).v  par2 == Ref!Lookup(r.v, ParentPath).v IN
+                              IF par.t = "object" THEN ~Ref!Lookup(r.v, PathOf).ok /\ Len(par2.m) = Len(par.m) - 1
+                              ELSE Len(par2.e) = Len(par.e) - 1
 MoveIsRemoveAdd == IsOp(Ref!S_move) =>
     LET from == Ref!Member(op, Ref!S_from).s
         r == Ref!OpStep(doc, op)
